@@ -205,6 +205,52 @@ def correspond(ctx, scale):
             fail(key + ':eval-nonzero', f'VectorQuantize({kw}): a loss term is non-zero in evaluation mode', dict(kw=kw))
         if len(samples) < 3:
             samples.append(dict(kw=kw, reported=float(loss.sum()), documented=want_total))
+    # ------------------------------------------------------------------ orthogonal regularisation with ALL its options at once (round 11, seed C17-k): active codes
+    # only AND a sub-sampling limit below the number of activated codes AND a codebook larger than that - the penalty is over a random subset OF THE
+    # ACTIVATED codes (the randperm of the call is replayed from the RNG state); option pairs alone do not tell `ids[perm]` from `perm`
+    gst = torch.get_rng_state()
+    for oi in range((8 if not ctx.thorough else 32) * scale):
+        o_heads = [1, 2][oi % 2]
+        o_max = [2, 3][(oi // 2) % 2]
+        o_masked = (oi // 4) % 2 == 1
+        kw_o = dict(dim=3 * o_heads, codebook_dim=3, heads=o_heads, codebook_size=12, ema_update=False, learnable_codebook=True, orthogonal_reg_weight=[10.0, 0.5][oi % 2],
+                    orthogonal_reg_active_codes_only=True, orthogonal_reg_max_codes=o_max, commitment_weight=1.0)
+        try:
+            torch.manual_seed(6100 + oi)
+            vq_o = VectorQuantize(**kw_o)
+            vq_o.train()
+            x_o = torch.randn(2, 6, 3 * o_heads)
+            kwargs_o = dict(return_loss_breakdown=True)
+            m_o = None
+            if o_masked:
+                m_o = torch.tensor([[j < L for j in range(6)] for L in (4, 6)])
+                kwargs_o['mask'] = m_o
+            st_o = torch.get_rng_state()
+            with torch.no_grad():
+                out_o, idx_o, loss_o, bd_o = vq_o(x_o, **kwargs_o)
+                after_o = torch.get_rng_state()
+                cb_o = vq_o._codebook.embed
+                sel_o = idx_o[m_o] if m_o is not None else idx_o
+                act_o = torch.unique(sel_o)
+                codes_o = cb_o[:, act_o]
+                n_act = int(act_o.numel())
+                if n_act > o_max:
+                    torch.set_rng_state(st_o)
+                    ids_o = torch.randperm(n_act)[:o_max]
+                    torch.set_rng_state(after_o)
+                    codes_o = codes_o[:, ids_o]
+                nc_o = F.normalize(codes_o.double(), dim=-1)
+                cs_o = torch.einsum('h i d, h j d -> h i j', nc_o, nc_o)
+                want_o = float((cs_o ** 2).sum() / (codes_o.shape[0] * codes_o.shape[1] ** 2) - 1 / codes_o.shape[1])
+            ev += 1
+            dist['vq_orth_active_and_limited'] = dist.get('vq_orth_active_and_limited', 0) + 1
+            nt += (o_max < n_act < 12)
+            if not close(bd_o.orthogonal_reg, want_o, 1e-4):
+                fail(f'vq:orth-active-and-limited:heads={o_heads}:masked={o_masked}', f'VectorQuantize({kw_o}) masked={o_masked}: {n_act} activated codes, limit {o_max}: reported orthogonal term '
+                     f'{float(bd_o.orthogonal_reg):.6g} != penalty over the replayed random subset of the ACTIVATED codes {want_o:.6g}', dict(kw=kw_o, masked=o_masked))
+        except Exception as ex:
+            fail(f'vq:orth-active-and-limited:exception:{type(ex).__name__}', repr(ex)[:300], dict(kw=kw_o))
+    torch.set_rng_state(gst)
     # ------------------------------------------------------------------ ResidualVQ: per-layer entries
     for ci in range((6 if not ctx.thorough else 40) * scale):
         nq = rng.choice([2, 3])
